@@ -55,6 +55,12 @@ CLAIMED = {
  "C08": ("runtime monitoring: type-conformance and reference-interpreter monitors around hcldec.Decode / PartialDecode for generated spec trees and conforming/perturbed bodies, native and JSON, panic-guarded",
          "Spec trees are generated for abstract bodies within the documented preconditions of every spec kind; bodies are decoded as written and after one perturbation; the monitor requires a non-panicking result whose type conforms to ImpliedType(spec), an error whenever the independent spec interpreter finds a violation, and value equality with the interpreter otherwise. One adjudicated finding is reported as KNOWN-FINDING. Held on the executions observed.",
          "cty conversion defines attribute conversion; hcldec.ImpliedType is taken as the statement of the implied type; BlockMapSpec is generated with one label (two-label empty case is the known finding).", "DESIGN.md §5 C08"),
+ "C04": ("runtime monitoring: executable accounting model of schema-directed extraction compared with four hcl.Body implementations (native, JSON, merged, dynblock-expanded) over chains of Content / PartialContent / JustAttributes calls",
+         "Abstract bodies are rendered natively, as JSON, split over merged files and wrapped with dynamic blocks; random schema chains (subsets, unknown names, required names, label-name lists) are applied; at every step the returned attributes/blocks, the error-ness and the remainder (probed by a further PartialContent with the full schema and by JustAttributes) are compared with a set-accounting model: every item is returned exactly once along a chain and never resurrected. Held on the executions observed.",
+         "JSON is skipped when an attribute and a block share a name (the JSON reading is schema-directed).", "DESIGN.md §5 C04"),
+ "C18": ("runtime monitoring: differential monitor between a body written with dynamic blocks and the same body written out by the harness, decoded under generated specifications; conformance / partial-equality monitors for unknown for_each; expansion-variable pruning",
+         "Body trees with repetition groups (labels computed from the iterator, content referring to own and outer iterators and scope variables, nested static blocks and nested groups to depth 3, default and custom iterator names incl. shadowing names and for_each variables named like the iterator) over collections of every iterable kind (sizes 0-4, marked or not) are rendered with dynamic blocks and written out by substitution on the harness AST; both are decoded under a generated spec (tuple / object / single / attrs kinds) and must agree in error-ness and value; expansion is repeated with only the reported expansion variables; in 1 case of 5 one for_each (any depth) is unknown and the result must conform to the implied type, leave unaffected parts equal and the affected part not wholly known. Held on the executions observed.",
+         "cty element iteration defines iteration order; marks are compared by C06, here values are compared unmarked; the affected-part clause is decided only when the unknown group's content holds an attribute directly.", "DESIGN.md §5 C18"),
 }
 
 NOT_YET = "monitor designed in DESIGN.md §5 but not yet built in this tree; will be claimed once its check is registered"
